@@ -67,6 +67,10 @@ fn main() {
             println!("golden rows checked: {n}, mismatches: {}", bad.len());
             let (cells, false_rej, planted, missed, msgs) = selftest::run(if fast { 1 } else { 40 }, 1_000_000);
             for m in &msgs { println!("{m}"); }
+            let map_bad = selftest::uniform_int_mapping();
+            for m in map_bad.iter().take(5) { println!("UNIFORM-INT MAPPING ASSUMPTION BROKEN: {m}"); }
+            println!("rand uniform-integer word mapping (assumed by the exact enumerations of C08/C10): {}", if map_bad.is_empty() { "as assumed" } else { "NOT as assumed" });
+            let missed = missed + map_bad.len() as u64;
             println!("selftest: synthetic cells {cells}, false rejections {false_rej}; planted defects {planted}, missed {missed}");
             std::process::exit(if bad.is_empty() && n > 0 && false_rej == 0 && missed == 0 { 0 } else { 2 });
         }
